@@ -1385,8 +1385,9 @@ class Compiler:
 
         for name in node.names:
             if not node.local:
+                # (with several names, each gets its own item of the value)
                 assignment += template(
-                    "rcontext[KEY] = __value", KEY=ast.Constant(
+                    "rcontext[KEY] = econtext[KEY]", KEY=ast.Constant(
                         str(name)))
 
         return assignment
